@@ -466,6 +466,8 @@ pub fn drop_derived(sut: &mut Sut, by_key: bool, heads: bool) -> Res {
     }
     let img = d.image();
     let d2 = crate::disk::SimDisk::from_image(img);
+    // the write log of this open (table setup, migrations) is kept: the caller may judge its crash points
+    d2.start_recording();
     let st = Store::verif_with_backend(d2.clone()).map_err(|e| Violation::new("open-fails/older-version", format!("opening a database without derived tables failed: {e:#}")))?;
     sut.store = Some(st);
     sut.disk = Some(d2);
